@@ -103,6 +103,8 @@ func (a *activityManager) dispatch() {
 		select {
 		case <-a.leadershipLostCh:
 			return
+		case <-a.shutdownCh:
+			return
 		default:
 		}
 
@@ -120,6 +122,12 @@ func (a *activityManager) dispatch() {
 		}
 		log := new(raft.Log)
 		if err := raftNode.store.GetLog(index, log); err != nil {
+			select {
+			case <-a.shutdownCh:
+				// The Raft store was closed underneath us by a shutdown.
+				return
+			default:
+			}
 			panic(err)
 		}
 		if log.Type != raft.LogCommand {
